@@ -1,0 +1,12 @@
+//go:build verif
+
+package composer
+
+import (
+	"k8s.io/apimachinery/pkg/runtime"
+	"sigs.k8s.io/controller-runtime/pkg/client"
+)
+
+func NewVerifComposer(scheme *runtime.Scheme, c client.Client) Composer {
+	return &General{scheme, c}
+}
